@@ -29,7 +29,7 @@ enum T {
     Not(Box<T>),
 }
 
-const NLEAF: usize = 16;
+const NLEAF: usize = 17;
 fn leaf(i: usize) -> FC {
     match i {
         0 => FC::Eq(Attribute::Name, PartialValue::new_iname("aa")),
@@ -47,7 +47,9 @@ fn leaf(i: usize) -> FC {
         12 => FC::Eq(Attribute::GidNumber, PartialValue::new_uint32(2000)),
         13 => FC::Eq(Attribute::Class, EntryClass::Person.into()),
         14 => FC::Eq(Attribute::Class, EntryClass::Group.into()),
-        _ => FC::Cnt(Attribute::Name, PartialValue::new_iname("cab")),
+        15 => FC::Cnt(Attribute::Name, PartialValue::new_iname("cab")),
+        // substring of a mail address that is stored with upper-case letters
+        _ => FC::Cnt(Attribute::Mail, PartialValue::EmailAddress("bee".into())),
     }
 }
 
@@ -83,7 +85,8 @@ fn leaf_match(i: usize, e: &SE) -> bool {
         12 => has(Attribute::GidNumber, &|v| v == "2000"),
         13 => has(Attribute::Class, &|v| v == "person"),
         14 => has(Attribute::Class, &|v| v == "group"),
-        _ => has(Attribute::Name, &|v| v.contains("cab")),
+        15 => has(Attribute::Name, &|v| v.contains("cab")),
+        _ => has(Attribute::Mail, &|v| v.to_lowercase().contains("bee")),
     }
 }
 
@@ -162,7 +165,7 @@ pub fn template() -> Srv {
     let r = srv.write(srv::t(10), |w| {
         let mut es: Vec<Entry<EntryInit, EntryNew>> = Vec::new();
         let people: [(&str, &str, Option<&str>, Option<u32>); 7] =
-            [("aa", "x", Some("m1@example.com"), Some(2000)), ("ab", "y", None, Some(3000)), ("ba", "x", Some("m2@example.com"), None), ("bb", "y", Some("m1b@example.com"), Some(2400)), ("cab", "x", None, None), ("ccc", "z", None, Some(2100)), ("a", "y", Some("m3@example.com"), None)];
+            [("aa", "x", Some("m1@example.com"), Some(2000)), ("ab", "y", None, Some(3000)), ("ba", "x", Some("M2.Bee@example.com"), None), ("bb", "y", Some("m1b@example.com"), Some(2400)), ("cab", "x", None, None), ("ccc", "z", None, Some(2100)), ("a", "y", Some("m3@example.com"), None)];
         for (i, (n, dn, mail, gid)) in people.iter().enumerate() {
             let mut e: Entry<EntryInit, EntryNew> = Entry::new();
             e.add_ava(Attribute::Class, EntryClass::Object.to_value());
@@ -361,7 +364,7 @@ pub fn run(args: &[String]) -> ! {
     ctx.set("searches_answered_with_an_explicit_error", errors);
     ctx.set("filters_whose_answer_depends_on_the_layout", dependent);
     ctx.set("population", all.len() as u64);
-    ctx.set("rule", "states = (index layout, cache temperature); transitions = searches. Layouts: every subset of {name, displayname, mail, gidnumber, class} with its indexes dropped from the backend metadata followed by the real reindex (quick: none, each single one, all five) plus 5 layouts dropping index types globally. Filters: all trees of depth 2 / width 2 over 16 leaves and depth 3 over reduced alphabets with AND, OR and AND-NOT in every position. Non-trivial = operator trees whose reference answer is neither empty nor everything");
+    ctx.set("rule", "states = (index layout, cache temperature); transitions = searches. Layouts: every subset of {name, displayname, mail, gidnumber, class} with its indexes dropped from the backend metadata followed by the real reindex (quick: none, each single one, all five) plus 5 layouts dropping index types globally. Filters: all trees of depth 2 / width 2 over 17 leaves and depth 3 over reduced alphabets with AND, OR and AND-NOT in every position. Non-trivial = operator trees whose reference answer is neither empty nor everything");
     ctx.set("bound", "filter depth <= 3, width <= 2 (thorough: 3 on a 3-leaf alphabet); 9 test entries plus all built-in entries of a fresh server");
     ctx.set("mismatches", nbad);
     ctx.set("exhaustive", true);
